@@ -379,6 +379,21 @@ def restore_roundtrip(cx):
     same_list = len({l for c, l, k, o in seq if o and (k, o[1]) != ("AddNode", "voters_outgoing")}) == 1 and len({l for c, l, k, o in seq}) == 2
     oko = bool(rm) and len(later) == 3 and all(g1.dominated_by_block(ic.at, lambda b: b == rm[0].block) for _, _, ic in later)
     cx.check(oko and same_list, "replay:order", "in the incoming list every removal of an outgoing voter comes before the additions (voters, learners, staged learners), and the outgoing list holds only the outgoing voters")
+    # the replay itself: a ConfState with outgoing voters is ALWAYS rebuilt through enter_joint (being joint is state:
+    # outgoing set, auto_leave, the pending leave), one without through simple changes only
+    gr = cx.pg(rf)
+    ej = {c.block for sp, c in cx.prog.calls_out[rf.key] if c.kind == "call" and sp.endswith("Changer::enter_joint")}
+    cx.check(len(ej) == 1, "replay:enter_joint", "confchange::restore enters the joint configuration at one site")
+    cont = [l for n_ in range(len(gr.nodes)) for _, ls in gr.edges[n_] or [] for l in ls if l[0] == "in" and l[2] == frozenset(["Continue"])]
+    def has_outgoing(l, want):
+        return l[0] == "is" and l[2] is (not want) and l[1][0] == "call" and l[1][1].endswith("is_empty") and any(x[0] == "tfield" and x[2] == 0 for x in walk(l[1]))
+    okj, nj = gr.after_edge_must_pass(lambda lits: any(has_outgoing(l, True) for l in lits), lambda b: b in ej, assume=cont)
+    cx.check(okj and nj >= 1, "replay:joint-always", "whenever the ConfState has outgoing voters the replay goes through enter_joint (no shortcut for 'equal halves')")
+    okn, nn = gr.after_edge_never_reaches(lambda lits: any(has_outgoing(l, False) for l in lits), lambda b: b in ej)
+    cx.check(okn and nn >= 1, "replay:simple-only", "without outgoing voters the replay never enters a joint configuration")
+    for c in [c for sp, c in cx.prog.calls_out[rf.key] if c.kind == "call" and sp.endswith("Changer::enter_joint")]:
+        a0 = call_args(cx, c)
+        cx.check(any(is_f(x, "ConfState.auto_leave") for x in a0), cx.site_key(c, "replay:auto_leave"), "enter_joint is given the ConfState's auto_leave", c)
     eqf = cx.fn("confstate::conf_state_eq")
     reads = cx.prog.readset_short(strip_generics(eqf.key))
     for f in CS_FIELDS:
